@@ -92,6 +92,7 @@ class Entries:
         o.fields['__getitem__'] = FuncV('list.__getitem__', getitem)
         o.fields['__setitem__'] = FuncV('list.__setitem__', setitem)
         o.fields['copy'] = FuncV('list.copy', lambda p, args, kw: self.setlist())
+        o.fields['__list__'] = FuncV('list', lambda p, args, kw: self.setlist())        # list(x): a new list with the same elements
         return o
 
     def abstract(self):
